@@ -161,7 +161,7 @@ def odd(state) -> bytes:
 
 
 @metacommand
-def align(state, count: uint) -> bytes:
+def align(state, count: uint16) -> bytes:
     if count == 0:
         reports.error(
             "value-out-of-bounds",
